@@ -174,6 +174,7 @@ func GenScript(r *hx.Rand, maxRoutes int) []RegT {
 		n = r.Range(1, 4) // many small sets: the interesting two- and three-route interactions
 	}
 	mainMethod := hx.Pick(r, Methods)
+	withMalformed := r.Chance(1, 8) // one script in eight contains patterns outside the vocabulary
 	var script []RegT
 	var pats [][]string
 	for i := 0; i < n; i++ {
@@ -182,7 +183,7 @@ func GenScript(r *hx.Rand, maxRoutes int) []RegT {
 		if r.Chance(1, 4) {
 			g.Method = hx.Pick(r, Methods)
 		}
-		if r.Chance(1, 25) {
+		if withMalformed && r.Chance(1, 5) {
 			g.Path = hx.Pick(r, malformed)
 			script = append(script, g)
 			continue
@@ -283,6 +284,77 @@ func GenReq(r *hx.Rand, script []RegT) ReqT {
 	q.Path = "/" + strings.Join(segs, "/")
 	if r.Chance(1, 80) {
 		q.Path = strings.TrimPrefix(q.Path, "/") // no leading slash (outside the canonical domain)
+	}
+	return q
+}
+
+var wideStatics = []string{"a", "b", "users", "list", "new", "api", "v1", "health", "c", "d", "é", "items"}
+
+// GenScriptWide produces scripts for C11: sizes straddling the ten-route thresholds of the compiled
+// engine (first-segment index over dynamic routes, bloom filter over static routes), with many
+// parameter-free routes in some scripts and overlapping templates in all.
+func GenScriptWide(r *hx.Rand) []RegT {
+	var script []RegT
+	switch r.Intn(4) {
+	case 0:
+		script = GenScript(r, 8)
+	case 1:
+		script = GenScript(r, 25)
+	default:
+		script = GenScript(r, 14)
+	}
+	mainMethod := script[0].Method
+	// top up with static routes so that the static tables straddle ten entries
+	if r.Chance(1, 2) {
+		k := r.Range(3, 16)
+		for i := 0; i < k; i++ {
+			n := r.Range(1, 3)
+			segs := make([]string, n)
+			for j := range segs {
+				segs[j] = hx.Pick(r, wideStatics)
+			}
+			g := RegT{Method: mainMethod, Path: "/" + strings.Join(segs, "/")}
+			if r.Chance(1, 6) {
+				g.Method = hx.Pick(r, Methods)
+			}
+			script = append(script, g)
+		}
+	}
+	// and with simple dynamic routes so that the dynamic list straddles ten entries
+	if r.Chance(1, 2) {
+		k := r.Range(2, 12)
+		for i := 0; i < k; i++ {
+			var segs []string
+			switch r.Intn(4) {
+			case 0:
+				segs = []string{hx.Pick(r, wideStatics), ":id"}
+			case 1:
+				segs = []string{":x", hx.Pick(r, wideStatics)}
+			case 2:
+				segs = []string{hx.Pick(r, wideStatics), ":id", hx.Pick(r, wideStatics)}
+			default:
+				segs = []string{hx.Pick(r, wideStatics), hx.Pick(r, wideStatics), ":y"}
+			}
+			g := RegT{Method: mainMethod, Path: "/" + strings.Join(segs, "/"), Cons: genCons(r, segs)}
+			if r.Chance(1, 6) {
+				g.Method = hx.Pick(r, Methods)
+			}
+			script = append(script, g)
+		}
+	}
+	hx.Shuffle(r, script)
+	return script
+}
+
+// GenReqWide: requests for C11 — like GenReq, plus a non-ASCII first byte now and then.
+func GenReqWide(r *hx.Rand, script []RegT) ReqT {
+	q := GenReq(r, script)
+	if r.Chance(1, 25) && len(q.Path) > 1 {
+		rest := ""
+		if i := strings.IndexByte(q.Path[1:], '/'); i >= 0 {
+			rest = q.Path[1+i:]
+		}
+		q.Path = "/" + hx.Pick(r, []string{"é", "ü1", "\xff", "日本"}) + rest
 	}
 	return q
 }
